@@ -1280,15 +1280,16 @@ def rotate(phi, theta, psi, ra, dec):
     cb = cos(b)
     cbsa = cb * sin(a)
 
-    b = -sintheta * cbsa + costheta * sb
+    # the rotated unit vector; the latitude is taken with arctan2 because
+    # arcsin gives nan when rounding pushes the sine beyond +/-1 and loses
+    # precision near the poles
+    x = cb * cos(a)
+    y = costheta * cbsa + sintheta * sb
+    z = -sintheta * cbsa + costheta * sb
 
-    (w,) = np.where(b > 1.0)
-    if w.size > 0:
-        b[w] = 1.0
+    dec_out = arctan2(z, np.sqrt(x * x + y * y))
 
-    dec_out = arcsin(b)
-
-    a = arctan2(costheta * cbsa + sintheta * sb, cb * cos(a))
+    a = arctan2(y, x)
     ra_out = (a + psi + fourpi) % twopi
 
     rad2deg(ra_out, out=ra_out)
